@@ -214,6 +214,9 @@ Section Judgement.
     | JReturn a e : (forall p, In p (uprods e a) -> Has (mk_trigger 0 p (CSite (SResult f)))) ->
         use_ok (prods_of_atom e a) = true -> J (SReturn a) e None
     | JConv x k j e : J (SConv x k j) e (Some (aputk e x [PNever]))
+    | JConvI x y k k2 e : incl_all (store_triggers x (uprods e (AVar y))) ->
+        use_ok (prods_of_atom e (AVar y)) || negb (is_glob x) = true ->
+        J (SConvI x y k k2) e (Some (aputk e x (prods_of_atom e (AVar y))))
     | JCallI cs d x xi k m args e :
         (forall p, In p (norm (aget e xi)) -> Has (mk_trigger d p CAlways)) -> use_ok (aget e xi) = true ->
         args_ok e (SIParam k m) args -> forallb (fun a => use_ok (prods_of_atom e a)) args = true ->
@@ -263,6 +266,10 @@ Section Judgement.
   Proof. inversion 1; subst; auto. Qed.
 
   Lemma J_conv_inv x k j e o : J (SConv x k j) e o -> o = Some (aputk e x [PNever]).
+  Proof. inversion 1; subst; auto. Qed.
+  Lemma J_convi_inv x y k k2 e o : J (SConvI x y k k2) e o ->
+    incl_all (store_triggers x (uprods e (AVar y))) /\ use_ok (prods_of_atom e (AVar y)) || negb (is_glob x) = true /\
+    o = Some (aputk e x (prods_of_atom e (AVar y))).
   Proof. inversion 1; subst; auto. Qed.
   Lemma J_calli_inv cs d x xi k m args e o : J (SCallI cs d x xi k m args) e o ->
     (forall p, In p (norm (aget e xi)) -> Has (mk_trigger d p CAlways)) /\ use_ok (aget e xi) = true /\
@@ -324,7 +331,7 @@ Section Judgement.
   Lemma analyze_J fuel : forall st e r,
     analyze ng ctr sp f fuel st e = Some r -> a_gsafe r = true -> incl_all (a_trig r) -> J st e (a_env r).
   Proof.
-    induction st as [| s1 IH1 s2 IH2 | x a | cs x g args | d x | c s1 IH1 s2 IH2 | c body IH | a | x k j | cs d x xi k m args | a er | cs x xe g args | cs g args]; intros e r H Hg Hall; cbn in H.
+    induction st as [| s1 IH1 s2 IH2 | x a | cs x g args | d x | c s1 IH1 s2 IH2 | c body IH | a | x k j | x y k k2 | cs d x xi k m args | a er | cs x xe g args | cs g args]; intros e r H Hg Hall; cbn in H.
     - inversion H; subst. constructor.
     - destruct (analyze ng ctr sp f fuel s1 e) as [r1|] eqn:E1; try discriminate.
       destruct (a_env r1) as [e1|] eqn:Ee1.
@@ -351,6 +358,7 @@ Section Judgement.
       eapply JWhile; eauto.
     - inversion H; subst. cbn in *. constructor; auto. intros p Hp. apply Hall. apply in_map_iff. exists p. auto.
     - inversion H; subst. cbn in *. constructor.
+    - inversion H; subst. cbn in *. constructor; auto.
     - inversion H; subst. cbn in *. apply andb_true_iff in Hg. destruct Hg as [Hg1 Hg2].
       apply incl_all_app in Hall. destruct Hall as [Ha0 Hall]. apply incl_all_app in Hall. destruct Hall as [Ha1 Ha2].
       constructor; auto.
@@ -548,9 +556,11 @@ Section Sound.
   (* every call of a contracted function comes from the callee's package; the (interface, implementation) pairs
      of the conversions have their triggers *)
   Definition W (kj : nat * nat) : Prop := forall t, In t (affil prog kj) -> In t ALLs.
+  Definition IW (kk : nat * nat) : Prop := forall t, In t (iaffil prog kk) -> In t ALLs.
   Definition calls_ok (g : fname) (st : stmt) : Prop :=
     (forall h cs, In (h, cs) (calls_of st) -> ctr h = true -> sp2 g h = true /\ ctx_ok h (Some cs)) /\
-    (forall kj, In kj (convs_of st) -> W kj).
+    (forall kj, In kj (convs_of st) -> W kj) /\
+    (forall kk, In kk (iconvs_of st) -> IW kk).
   Hypothesis CallsOK : forall g fd, nth_error (p_funcs prog) g = Some fd -> calls_ok g (f_body fd).
 
   Definition nu (s : asite) : Prop := nilr C (enc s).
@@ -571,8 +581,16 @@ Section Sound.
     forall x, var_ok prog x = true -> sget s x = VNil -> exists p, In p (aget e x) /\ nilS s (psub g c p).
   (* a package-level variable that holds nil has a nil-able site *)
   Definition GInv (s : store) : Prop := forall k, k < ng -> sget s (VG k) = VNil -> nu (SGlobal k).
-  (* an interface value stems from a conversion of the program *)
-  Definition Vok (v : value) : Prop := forall k j, v = VPtr (Some (k, j)) -> W (k, j).
+  (* an interface value of type I_k holding an S_j: the methods of S_j are linked to those of I_k (a nil-able result
+     of the implementation makes the interface method's result nil-able, a nil-able parameter of the interface method
+     the implementation's), and S_j has them *)
+  Definition L (k j : nat) : Prop := forall m np f fd, nth_error (isig prog k) m = Some np ->
+    nth_error (nth j (p_impls prog) []) m = Some f -> nth_error (p_funcs prog) f = Some fd ->
+    (nu (SResult f) -> nu (SIResult k m)) /\
+    (forall i, S i < f_nparams fd -> nu (SIParam k m i) -> nu (SParam f (S i))).
+  Definition Conf (k j : nat) : Prop := forall m np, nth_error (isig prog k) m = Some np ->
+    exists f fd, nth_error (nth j (p_impls prog) []) m = Some f /\ nth_error (p_funcs prog) f = Some fd /\ f_nparams fd = S np.
+  Definition Vok (v : value) : Prop := forall k j, v = VPtr (Some (k, j)) -> L k j /\ Conf k j.
   Definition DInv (s : store) : Prop := forall x, Vok (sget s x).
   (* what a nil result means for the caller *)
   Definition ret_ok (g : fname) (c : option nat) : Prop :=
@@ -910,11 +928,13 @@ Section Sound.
 
   Lemma calls_ok_seq g a b : calls_ok g (SSeq a b) -> calls_ok g a /\ calls_ok g b.
   Proof.
-    intros [H1 H2]. split; split.
+    intros [H1 [H2 H3]]. split; (split; [|split]).
     - intros h cs Hi. apply H1. cbn. apply in_or_app. auto.
     - intros kj Hi. apply H2. cbn. apply in_or_app. auto.
+    - intros kk Hi. apply H3. cbn. apply in_or_app. auto.
     - intros h cs Hi. apply H1. cbn. apply in_or_app. auto.
     - intros kj Hi. apply H2. cbn. apply in_or_app. auto.
+    - intros kk Hi. apply H3. cbn. apply in_or_app. auto.
   Qed.
   Lemma calls_ok_if g c a b : calls_ok g (SIf c a b) -> calls_ok g a /\ calls_ok g b.
   Proof. intros H. exact (calls_ok_seq g a b H). Qed.
@@ -935,18 +955,85 @@ Section Sound.
     induction n as [|n IH]; intros i0 i H; [lia|]. cbn. destruct (Nat.eq_dec i0 i); auto. right. apply IH. lia.
   Qed.
 
-  Lemma W_result k j m f fd : W (k, j) -> nth_error (nth j (p_impls prog) []) m = Some f ->
+  Lemma nth_error_firstn_lt {A} (l : list A) : forall n m, m < n -> nth_error (firstn n l) m = nth_error l m.
+  Proof.
+    induction l as [|a l IH]; intros n m H; [now rewrite firstn_nil|].
+    destruct n as [|n]; [lia|]. destruct m as [|m]; cbn; auto. apply IH. lia.
+  Qed.
+
+  Lemma W_result k j m np f fd : W (k, j) -> nth_error (isig prog k) m = Some np ->
+    nth_error (nth j (p_impls prog) []) m = Some f ->
     nth_error (p_funcs prog) f = Some fd -> nu (SResult f) -> nu (SIResult k m).
   Proof.
-    intros HW Hm Hf Hn. eapply edge_plain; eauto. apply HW. unfold affil. cbn.
-    eapply (affil_methods_in _ k _ 0 m f fd); eauto. cbn. left. reflexivity.
+    intros HW Hs Hm Hf Hn. eapply edge_plain; eauto. apply HW. unfold affil. cbn.
+    assert (Hlt : m < length (isig prog k)) by (apply nth_error_Some; congruence).
+    eapply (affil_methods_in _ k _ 0 m f fd); eauto; [rewrite nth_error_firstn_lt; auto|]. cbn. left. reflexivity.
   Qed.
-  Lemma W_param k j m f fd i : W (k, j) -> nth_error (nth j (p_impls prog) []) m = Some f ->
+  Lemma W_param k j m np f fd i : W (k, j) -> nth_error (isig prog k) m = Some np ->
+    nth_error (nth j (p_impls prog) []) m = Some f ->
     nth_error (p_funcs prog) f = Some fd -> S i < f_nparams fd -> nu (SIParam k m i) -> nu (SParam f (S i)).
   Proof.
-    intros HW Hm Hf Hi Hn. eapply edge_plain; eauto. apply HW. unfold affil. cbn.
-    eapply (affil_methods_in _ k _ 0 m f fd); eauto. cbn. right.
+    intros HW Hs Hm Hf Hi Hn. eapply edge_plain; eauto. apply HW. unfold affil. cbn.
+    assert (Hlt : m < length (isig prog k)) by (apply nth_error_Some; congruence).
+    eapply (affil_methods_in _ k _ 0 m f fd); eauto; [rewrite nth_error_firstn_lt; auto|]. cbn. right.
     apply in_map_iff. exists i. split; auto. apply in_seq_from. lia.
+  Qed.
+
+  (* a witnessed (interface, implementation) pair is linked *)
+  Lemma W_L k j : W (k, j) -> L k j.
+  Proof.
+    intros HW m np f fd Hs Hm Hf. split.
+    - eapply W_result; eauto.
+    - intros i Hi. eapply W_param; eauto.
+  Qed.
+
+  Lemma conform_from_spec : forall sig row m np, conform_from prog row sig = true -> nth_error sig m = Some np ->
+    exists f fd, nth_error row m = Some f /\ nth_error (p_funcs prog) f = Some fd /\ f_nparams fd = S np.
+  Proof.
+    induction sig as [|n0 sig IH]; intros row m np H Hn; [destruct m; discriminate|].
+    destruct row as [|f0 row]; cbn in H; [discriminate|].
+    apply andb_true_iff in H. destruct H as [H0 H1].
+    destruct m as [|m]; cbn in Hn.
+    - inversion Hn; subst. destruct (nth_error (p_funcs prog) f0) as [fd|] eqn:Ef; [|discriminate].
+      exists f0, fd. cbn. repeat split; auto. now apply Nat.eqb_eq.
+    - destruct (IH row m np H1 Hn) as [f [fd [A1 [B1 C1]]]]. exists f, fd. cbn. auto.
+  Qed.
+
+  Lemma conform_Conf k j : conform prog k j = true -> Conf k j.
+  Proof. intros H m np Hn. eapply conform_from_spec; eauto. Qed.
+
+  Lemma prefix_b_spec : forall a b m x, prefix_b a b = true -> nth_error a m = Some x -> nth_error b m = Some x.
+  Proof.
+    induction a as [|x0 a IH]; intros b m x H Hn; [destruct m; discriminate|].
+    destruct b as [|y0 b]; cbn in H; [discriminate|]. apply andb_true_iff in H. destruct H as [H0 H1].
+    apply Nat.eqb_eq in H0. subst y0. destruct m as [|m]; cbn in *; [exact Hn|]. eapply IH; eauto.
+  Qed.
+
+  Lemma ilink_methods_in k k2 : forall sig m0 m np,
+    nth_error sig m = Some np -> forall t, In t (ilink_method k k2 (m0 + m) np) -> In t (ilink_methods k k2 m0 sig).
+  Proof.
+    induction sig as [|n0 sig IH]; intros m0 m np Hn t Ht; [destruct m; discriminate|].
+    destruct m as [|m]; cbn in Hn.
+    - inversion Hn; subst. cbn [ilink_methods]. rewrite Nat.add_0_r in Ht. apply in_or_app. auto.
+    - cbn [ilink_methods]. apply in_or_app. right. replace (m0 + S m) with (S m0 + m) in Ht by lia. eapply IH; eauto.
+  Qed.
+
+  (* an interface value of type I_k2 used as an I_k keeps its links, through those of the two interfaces *)
+  Lemma IW_L k k2 j : IW (k, k2) -> prefix_b (isig prog k) (isig prog k2) = true -> L k2 j -> Conf k2 j -> L k j /\ Conf k j.
+  Proof.
+    intros HI Hp HL HC. split.
+    - intros m np f fd Hs Hm Hf.
+      pose proof (prefix_b_spec _ _ _ _ Hp Hs) as Hs2.
+      destruct (HL m np f fd Hs2 Hm Hf) as [Lr Lp].
+      destruct (HC m np Hs2) as [f' [fd' [Hm' [Hf' Hnp]]]].
+      rewrite Hm in Hm'. inversion Hm'; subst f'. rewrite Hf in Hf'. inversion Hf'; subst fd'.
+      split.
+      + intros Hn. eapply edge_plain; [|apply Lr; exact Hn]. apply HI. unfold iaffil. cbn.
+        eapply (ilink_methods_in k k2 _ 0 m np); eauto. cbn. left. reflexivity.
+      + intros i Hi Hn. apply Lp; auto. eapply edge_plain; [|exact Hn]. apply HI. unfold iaffil. cbn.
+        eapply (ilink_methods_in k k2 _ 0 m np); eauto. cbn. right.
+        apply in_map_iff. exists i. split; auto. apply in_seq_from. lia.
+    - intros m np Hs. apply HC. eapply prefix_b_spec; eauto.
   Qed.
 
   Lemma GInv_local s i v : GInv s -> GInv (sset s (VL i) v).
@@ -1012,7 +1099,7 @@ Section Sound.
     end.
   Proof.
     induction fuel as [|fuel IH]; intros g c st s oracle e o HJ Hok Hcalls Hr HG HD; cbn [exec]; auto.
-    destruct st as [| s1 s2 | x a | cs x h args | d x | cd s1 s2 | cd body | a | x ik j | cs d x xi ik m args | a er | cs x xe h args | cs h args]; cbn in Hok.
+    destruct st as [| s1 s2 | x a | cs x h args | d x | cd s1 s2 | cd body | a | x ik j | x y ik ik2 | cs d x xi ik m args | a er | cs x xe h args | cs h args]; cbn in Hok.
     - apply J_skip_inv in HJ. subst. eauto.
     - apply andb_true_iff in Hok. destruct Hok as [Hc1 Hc2]. apply calls_ok_seq in Hcalls. destruct Hcalls as [Hk1 Hk2].
       apply J_seq_inv in HJ. destruct HJ as [[H1 ->]|[e1 [H1 H2]]].
@@ -1142,27 +1229,45 @@ Section Sound.
       + change (SResult g) with (rsub g None (SResult g)).
         eapply (use_site g None s (prods_of_atom e a) 0 (SResult g) p); eauto. intros cs0 E0. discriminate.
     - (* conversion to an interface: a non-nil value whose (interface, implementation) pair is witnessed *)
-      apply J_conv_inv in HJ. subst.
+      apply J_conv_inv in HJ. subst. apply andb_true_iff in Hok. destruct Hok as [Hx Hconf].
       destruct (inv_assign_nonnil g c s e x (VPtr (Some (ik, j))) [PNever] Hr HG) as [R1 R2]; [discriminate|].
       split; [eauto|]. split; auto. apply DInv_sset; auto.
-      intros k' j' E. inversion E; subst. apply (proj2 Hcalls). left. reflexivity.
+      intros k' j' E. inversion E; subst. split; [|now apply conform_Conf].
+      apply W_L. apply (proj1 (proj2 Hcalls)). left. reflexivity.
+    - (* an interface value converted to another interface type *)
+      apply J_convi_inv in HJ. destruct HJ as [Hst [Hu ->]].
+      apply andb_true_iff in Hok. destruct Hok as [Hok Hpre]. apply andb_true_iff in Hok. destruct Hok as [Hx Hy].
+      assert (Step : forall v, (v = VNil -> sget s y = VNil) -> Vok v ->
+                (exists e', Some (aputk e x (prods_of_atom e (AVar y))) = Some e' /\ respects g c (sset s x v) e') /\
+                GInv (sset s x v) /\ DInv (sset s x v)).
+      { intros v Hv Hvok.
+        destruct (inv_assign g c s e x v (prods_of_atom e (AVar y)) Hr HG) as [R1 R2]; auto.
+        { intros Hnil. apply (eval_atom_respects g c s e (AVar y)); auto. }
+        split; [eauto|]. split; auto. apply DInv_sset; auto. }
+      destruct (sget s y) as [|[[k' j]|]] eqn:Ey; auto.
+      + apply Step; auto. apply Vok_nil.
+      + destruct (Nat.eqb ik2 k') eqn:Ek; auto. apply Nat.eqb_eq in Ek. subst k'.
+        apply Step; [discriminate|]. intros k0 j0 E. inversion E; subst.
+        destruct (HD y ik2 j0 Ey) as [HL HC].
+        eapply IW_L; eauto. apply (proj2 (proj2 Hcalls)). left. reflexivity.
     - (* method call on an interface value *)
       apply J_calli_inv in HJ. destruct HJ as [Hd [Hu [Hargs [Hus [Hst ->]]]]].
-      apply andb_true_iff in Hok. destruct Hok as [Hok Hrows]. apply andb_true_iff in Hok. destruct Hok as [Hok Hx].
+      apply andb_true_iff in Hok. destruct Hok as [Hok Hsig]. apply andb_true_iff in Hok. destruct Hok as [Hok Hx].
       apply andb_true_iff in Hok. destruct Hok as [Hxi Hoks].
+      destruct (nth_error (isig prog ik) m) as [np|] eqn:Esig; [|discriminate]. apply Nat.eqb_eq in Hsig. subst np.
       destruct (sget s xi) as [|[[k' j]|]] eqn:Exi; auto.
       + destruct (Hr xi Hxi Exi) as [p [Hp Hn]]. eapply (use_deref g c s (aget e xi) d p); eauto. eapply use_ok_in; eauto.
       + destruct (Nat.eqb ik k') eqn:Ek; auto. apply Nat.eqb_eq in Ek. subst k'.
-        destruct (nth_error (nth j (p_impls prog) []) m) as [f|] eqn:Em; auto.
-        destruct (nth_error (p_funcs prog) f) as [fd|] eqn:Ef; auto.
+        destruct (HD xi ik j Exi) as [HL HC].
+        destruct (HC m (length args) Esig) as [f [fd [Em [Ef Hnp]]]].
+        destruct (nth_error (nth j (p_impls prog) []) m) as [f0|] eqn:Em0 in |- *.
+        2:{ exfalso. assert (X : None = Some f) by (rewrite <- Em0; exact Em). discriminate. }
+        assert (X : Some f0 = Some f) by (rewrite <- Em0; exact Em). inversion X; subst f0. clear X.
+        rewrite Ef.
         assert (Hrow : In (nth j (p_impls prog) []) (p_impls prog)).
         { destruct (nth_in_or_default j (p_impls prog) []) as [Hin|E]; auto. rewrite E in Em. destruct m; discriminate. }
-        assert (Hnp : f_nparams fd = S (length args)).
-        { rewrite forallb_forall in Hrows. specialize (Hrows _ Hrow). cbn beta in Hrows.
-          assert (Em' : @nth_error nat (nth j (p_impls prog) []) m = Some f) by exact Em.
-          rewrite Em', Ef in Hrows. now apply Nat.eqb_eq. }
         assert (Hcf : ctr f = false) by (eapply ImplsPlain; eauto; eapply nth_error_In; eauto).
-        assert (HW : W (ik, j)) by (eapply (HD xi); eauto).
+        destruct (HL m (length args) f fd Esig Em Ef) as [Lres Lpar].
         destruct (FuncsOK f fd None Ef I) as [og [HJf Hend]].
         assert (Hvs : forall v, In v (VPtr None :: map (eval_atom s) args) -> Vok v).
         { intros v [<-|Hv]; [apply Vok_plain|]. apply in_map_iff in Hv. destruct Hv as [a [<- _]]. now apply Vok_atom. }
@@ -1172,7 +1277,7 @@ Section Sound.
           rewrite nth_error_map in Hi. destruct (nth_error args i) as [a|] eqn:Ea; [|discriminate].
           cbn in Hi. inversion Hi as [Hv]. cbn.
           assert (Hlt : i < length args) by (apply nth_error_Some; congruence).
-          eapply (W_param ik j m f fd i); eauto; [lia|].
+          apply Lpar; [lia|].
           eapply (arg_site g c s e (SIParam ik m) args i a); eauto. }
         pose proof (IH f None (f_body fd) _ oracle _ og HJf (WF f fd Ef) (CallsOK f fd Ef) Hentry HGentry HDentry) as R.
         assert (E : psub g c (PSite (SIResult ik m)) = PSite (SIResult ik m)) by (destruct c; reflexivity).
@@ -1181,7 +1286,7 @@ Section Sound.
           destruct x as [y|]; [|split; eauto].
           destruct (inv_assign g c _ (mark_stale ng e) y VNil [PSite (SIResult ik m)] A1 A2) as [R1 R2]; auto.
           { intros _. exists (PSite (SIResult ik m)). split; [left; reflexivity|]. rewrite E. cbn.
-            eapply (W_result ik j m f fd); eauto.
+            apply Lres.
             change (SResult f) with (rsub f None (SResult f)).
             eapply (tsite f None 0 PNil (SResult f)); [apply Hend; congruence | exact I |].
             intros cs0 E0. discriminate. }
@@ -1191,7 +1296,7 @@ Section Sound.
           destruct x as [y|]; [|split; eauto].
           destruct (inv_assign g c _ (mark_stale ng e) y v [PSite (SIResult ik m)] A1 A2) as [R1 R2]; auto.
           { intros Hnil. exists (PSite (SIResult ik m)). split; [left; reflexivity|]. rewrite E. cbn.
-            eapply (W_result ik j m f fd); eauto. apply (Hv Hnil eq_refl). }
+            apply Lres. apply (Hv Hnil eq_refl). }
           split; [eauto|]. split; auto. apply DInv_sset; auto.
     - (* return a, er *)
       apply andb_true_iff in Hok. destruct Hok as [Hoka Hoke].
@@ -1345,7 +1450,7 @@ Proof.
   rewrite (drop_safe_id _ _ _ _ Hnd) in Hnf.
   apply andb_true_iff in Hwf. destruct Hwf as [Hwf Hentry].
   set (r := {| r_decl := decl_triggers 0 (p_ginit prog); r_funcs := tss; r_dups := dups_all ctr sp2 tss 0 (p_funcs prog);
-               r_affil := map (fun fd => flat_map (affil prog) (convs_of (f_body fd))) (p_funcs prog);
+               r_affil := map (fun fd => flat_map (affil prog) (convs_of (f_body fd)) ++ flat_map (iaffil prog) (iconvs_of (f_body fd))) (p_funcs prog);
                r_gsafe := true; r_nodel := true; r_clocal := ctr_local ctr sp2 0 (p_funcs prog) |}) in *.
   set (ALLs := all_strigs r) in *.
   assert (InF : forall g tg t, nth_error tss g = Some tg -> In t tg -> In t ALLs).
@@ -1381,8 +1486,11 @@ Proof.
     - intros h cs Hin Hc. pose proof (ctr_local_nth ctr sp2 _ 0 g fd Hcl Hg) as Hl.
       rewrite forallb_forall in Hl. specialize (Hl (h, cs) Hin). cbn in Hl. rewrite Hc in Hl. cbn in Hl.
       split; auto. split; auto. exists g, fd. auto.
-    - intros kj Hin t Ht. unfold ALLs, all_strigs. cbn. apply in_or_app. right. apply in_or_app. right. apply in_or_app. right.
-      eapply in_concat_nth; [apply map_nth_error; exact Hg|]. apply in_flat_map. exists kj. auto. }
+    - split.
+      + intros kj Hin t Ht. unfold ALLs, all_strigs. cbn. apply in_or_app. right. apply in_or_app. right. apply in_or_app. right.
+        eapply in_concat_nth; [apply map_nth_error; exact Hg|]. cbn beta. apply in_or_app. left. apply in_flat_map. exists kj. auto.
+      + intros kk Hin t Ht. unfold ALLs, all_strigs. cbn. apply in_or_app. right. apply in_or_app. right. apply in_or_app. right.
+        eapply in_concat_nth; [apply map_nth_error; exact Hg|]. cbn beta. apply in_or_app. right. apply in_flat_map. exists kk. auto. }
   unfold run_program. destruct (nth_error (p_funcs prog) 0) as [fd|] eqn:E0; [|reflexivity].
   destruct (FuncsOK 0 fd None E0 I) as [o [HJ _]].
   assert (Hnp : f_nparams fd = 0).
@@ -1415,5 +1523,16 @@ Proof.
   intros Han g fd kj Hg Hin t Ht. unfold analyze_program in Han.
   destruct (analyze_funcs (length (p_ginit prog)) afuel ctr (fun f g0 : fname => Nat.eqb (pk f) (pk g0)) 0 (p_funcs prog)) as [[tss b]|]; [|discriminate].
   inversion Han; subst. unfold all_strigs. cbn. apply in_or_app. right. apply in_or_app. right. apply in_or_app. right.
-  eapply in_concat_nth; [apply map_nth_error; exact Hg|]. apply in_flat_map. exists kj. auto.
+  eapply in_concat_nth; [apply map_nth_error; exact Hg|]. cbn beta. apply in_or_app. left. apply in_flat_map. exists kj. auto.
+Qed.
+
+(* ... and so has every (interface, interface) pair witnessed by an interface-to-interface conversion *)
+Lemma iconvs_witnessed prog afuel ctr pk r :
+  analyze_program afuel ctr pk prog = Some r ->
+  forall g fd kk, nth_error (p_funcs prog) g = Some fd -> In kk (iconvs_of (f_body fd)) -> IW prog (all_strigs r) kk.
+Proof.
+  intros Han g fd kk Hg Hin t Ht. unfold analyze_program in Han.
+  destruct (analyze_funcs (length (p_ginit prog)) afuel ctr (fun f g0 : fname => Nat.eqb (pk f) (pk g0)) 0 (p_funcs prog)) as [[tss b]|]; [|discriminate].
+  inversion Han; subst. unfold all_strigs. cbn. apply in_or_app. right. apply in_or_app. right. apply in_or_app. right.
+  eapply in_concat_nth; [apply map_nth_error; exact Hg|]. cbn beta. apply in_or_app. right. apply in_flat_map. exists kk. auto.
 Qed.
